@@ -40,11 +40,11 @@ var properties = []Property{
 	P("C02", "ASN.1 tag/shape comparison of the marshalled struct types with RFC 5280, constant evaluation, SSA value-identity and guard analysis",
 		"the shape (field order, universal types, tags, EXPLICIT/OPTIONAL/DEFAULT) of the certificate types handed to encoding/asn1; the serial bound (<= 2^159) and version constant; that both signature AlgorithmIdentifiers get one Parameters value that is NULL exactly for RSA; UTC conversion of the validity; the SubjectPublicKeyInfo identifiers.",
 		"DER minimality of lengths/integers/times (encoding/asn1 is trusted for the shape it is given), the 'independent parser reads the same fields' clause, byte-exact round trips, the UTCTime/GeneralizedTime choice.",
-		"ASN1-CERT", "TAB-SERIAL", "SIGALG-PARAMS", "PROV-VALIDITY", "TAB-ALGOID", "TAB-SIGALG"),
+		"ASN1-CERT", "TAB-SERIAL", "SIGALG-PARAMS", "PROV-VALIDITY", "TAB-ALGOID", "TAB-SIGALG", "TBS-WRITERS"),
 	P("C03", "caller-memory purity analysis over SSA with module callees followed, access-path provenance, table and schema comparison",
 		"that validating against a profile cannot change the subject (no write to caller memory on any path); that subject, serial and unique ids reach the certificate from the like-named configuration and YAML fields without cross-wiring, the configured serial only when non-zero; the attribute short-name table; schema/struct agreement.",
 		"the string type chosen per value, comma/escape parsing for all subject strings, the reversal inside the subject parser, the bytes of the encoded DN.",
-		"PURE", "PROV-SUBJECT", "TAB-RDN", "SCHEMA-TAGS"),
+		"PURE", "PROV-SUBJECT", "TAB-RDN", "SCHEMA-TAGS", "TBS-WRITERS"),
 	P("C04", "constant/layout evaluation, regexp-syntax analysis of the duration pattern, SSA wiring, guard extraction, error-drop analysis",
 		"the date layout constant and location reaching time.ParseInLocation; which capture group feeds which AddDate argument of the single calendar addition; the default lifetime; the from-absent default; From/Until passed in order and converted to UTC; the exact guard under which a profile's validity is inherited; that no parse error of a duration count is dropped; the year range guard.",
 		"calendar arithmetic itself, time-zone behaviour, the UTCTime/GeneralizedTime choice (library).",
@@ -104,7 +104,7 @@ var properties = []Property{
 	P("C19", "access-path provenance from YAML key to certificate field, dominance (before/after signing), error-drop analysis",
 		"that each of the six manipulation keys reaches exactly its own field (OIDs through the OID parser, byte values through the raw reader with BitLength 8*len); TBS manipulations are stored before signing under their != nil guards, outer ones into the signed certificate after the signing call; a preset inner algorithm is kept; nothing is stored into the TBS after it was marshalled; a parse error of a manipulation is reported; merging keeps the manipulations.",
 		"that all other fields equal those of the unmanipulated run.",
-		"PROV-MANIP", "PROV-SIGN", "MERGE-COPY", "ERR-DROP", "SCHEMA-TAGS", "LIVE-FIELD"),
+		"PROV-MANIP", "PROV-SIGN", "MERGE-COPY", "ERR-DROP", "SCHEMA-TAGS", "LIVE-FIELD", "TBS-WRITERS"),
 	P("C20", "call-graph reachability of explicit panics with per-site discharge rules, bug-pattern lints with fixture controls, error-drop analysis",
 		"that every explicit panic reachable from the entry points is discharged by a checked invariant (constant in-range arguments, algorithm table rows, configurator result types, OID validation at parse time, year range); that six bug patterns are absent (relative index misuse, unchecked Index result, nil part dereference, single-result type assertion, unchecked narrowing, use after close); that no error is dropped; that schema enum values without a case reach an error.",
 		"panics inside libraries, arbitrary index/nil safety (no abstract interpreter for integers/slices is available): this is pattern checking, not a proof of panic freedom.",
